@@ -5,21 +5,40 @@ unchanged, and hydration never panics on output produced by the same view."
 
 Model: `Model/Hydrate.lean` (`ssrOfList`, `mergeCh`, `hydrateKids`, `hydrateView`, `visibleCh`) on top of
 `Model/DomView.lean`; helpers and proofs: `Lemmas/Hydrate.lean`.
-Everything below holds for ALL stores and ALL mounted views that satisfy the two hypotheses
+Everything below holds for ALL stores and ALL mounted views — including views with `NoHydrate` islands
+(`Inst.island`) — that satisfy the two hypotheses
 
-* `ShowFreeList inst`: no `Show` anywhere in the instance (also not in the current content of a dynamic
-  view).  `Show` is the known finding D12 and is excluded on purpose.
-* `StampFreeList inst`: no element of the view has an attribute NAMED `[1]`.  The model represents the
-  debug stamp `data-hydrated` of `check_node` as a leading attribute `([1], [])` and recognises adopted
-  elements by it; a view that itself renders such an attribute looks "already adopted" to the model and
-  `hydrateFirstUnadopted` skips it (`C09_stamp_hypothesis_needed` below).  This is an artefact of the
-  encoding (real views do not use the attribute `data-hydrated`), not a behaviour of sycamore.
+* `ShowFreeList inst`: no `Show` anywhere in the HYDRATED part of the instance (also not in the current
+  content of a dynamic view).  `Show` is the known finding D12 and is excluded on purpose.  Inside an
+  island nothing is hydrated, so a `Show` inside `NoHydrate` IS covered.
+* `StampFreeList inst`: no element of the view (inside or outside islands) has an attribute NAMED `[1]` or
+  `[2]`.  The model represents the debug stamp `data-hydrated` of `check_node` as a leading attribute
+  `([1], [])` and recognises adopted elements by it, and it represents "rendered without a hydration key"
+  (the children of `NoHydrate`) as a leading attribute `([2], [])`; a view that itself renders such an
+  attribute first looks "already adopted" / "keyless" to the model and `hydrateFirstUnadopted` skips it
+  (`C09_stamp_hypothesis_needed`, `C09_keyless_name_reserved` below).  This is an artefact of the encoding
+  (real views use neither name), not a behaviour of sycamore.
+
+Islands.  The server renders the children of `NoHydrate` frozen (`frozenOf`: keyless elements, plain text,
+no comment markers) and the hydrating client appends NOTHING for them (`ssrOf σ (.island cs) =
+(frozenOfList σ cs, [])`).  The theorems say: hydration still never fails, the island content is left
+exactly as it is (same keyless elements with the same attributes and subtrees at the same places,
+`C09_all_adopted_once`), no marker of the hydrated part is lost to or taken from an island
+(`C09_markers_consumed`), and what the island shows is what the client renders for it at the same store
+(`C09_matches_client_render`).
 
 Reading guide
 * `(c, p) = ssrOfList σ inst`: `c` = children the SERVER renders, `mergeCh c` = what the HTML parser hands to
   the client, `p` = the pending nodes the hydrating build appends, in order.
 * `hydrateView σ inst = hydrateKids (2 * (pendSize p + chSize (mergeCh c)) + 2) (mergeCh c) p`.
-* `elems` : pre-order list of `(tag, carries the adoption stamp?)` over the whole forest.
+* `elemKinds` : pre-order list of `(tag, kind)` over the whole forest, `kind` ∈ `unadopted` (keyed, no
+  stamp), `adopted` (leading `[1]`), `keyless` (leading `[2]`); `adoptKind` maps `unadopted ↦ adopted` and
+  leaves the rest; `keylessEls` : the maximal keyless elements WITH attributes and subtrees, document order;
+  `keyedElems`/`keylessElems` : the two sub-lists of `elemKinds`.
+  `elems` : the observation of the island-free development, `(tag, carries the adoption stamp?)`.
+* `eraseKeyless` : erase the attribute `[2]` from every element.  `visibleCh` (Model) drops comments and the
+  stamp `[1]` but keeps `[2]`, which the client render of course does not have; the comparison with the
+  client render is therefore stated modulo `eraseKeyless` (under `StampFreeList` only stamps are erased).
 * `cmtCount s` : number of comments with content `s` in the whole forest; `[47]` is the slash marker of
   SSR, `[116]` the `t` comment in front of a dynamic text, `[35]` the hydrated marker `#`.
 * `markerCount p`, `dynTextCount p` : number of marker / dynamic-text appends in the whole pending forest.
@@ -27,6 +46,7 @@ Reading guide
   identities forgotten, adjacent text merged.
 -/
 import SycVerif.Lemmas.Hydrate
+import SycVerif.Lemmas.DomView
 namespace SycVerif.Hydrate
 open SycVerif.DomView
 
@@ -73,25 +93,83 @@ theorem C09_visible_unchanged (σ : Store) (inst : InstList)
 
 /-! ## 3 — every server-rendered element is adopted exactly once; none created, moved or removed -/
 
-/-- **C09 (adopted exactly once).** The hydrated document has the same elements in the same (pre-order)
-positions as the server document — none is created, removed or moved —, each of them carries the
-adoption stamp afterwards and none did before.  (A second adoption of the same element is impossible in
-the model: `hydrateFirstUnadopted` skips stamped elements.) -/
+/-- **C09 (adopted exactly once; islands untouched).** The hydrated document has the same elements in the
+same (pre-order) positions as the server document — none is created, removed or moved: the list of
+`(tag, kind)` after hydration is the list before, mapped position by position by `adoptKind` (a keyed
+element goes from unadopted to adopted, a keyless one stays keyless); no element was adopted before; and
+the keyless elements (the content of `NoHydrate`) are literally the same before and after — same
+attributes (never stamped `[1]`), same subtrees, same order.  (A second adoption of the same element is
+impossible in the model: `hydrateFirstUnadopted` skips stamped elements.) -/
 theorem C09_all_adopted_once (σ : Store) (inst : InstList)
     (hShow : ShowFreeList inst) (hStamp : StampFreeList inst)
+    (ch' : List Ch) (h : hydrateView σ inst = .ok ch') :
+    elemKinds ch' = (elemKinds (mergeCh (ssrOfList σ inst).1)).map adoptKind ∧
+    (∀ e ∈ elemKinds (mergeCh (ssrOfList σ inst).1), e.2 ≠ .adopted) ∧
+    keylessEls ch' = keylessEls (mergeCh (ssrOfList σ inst).1) := by
+  rw [hydrateView_eq σ inst hShow hStamp] at h; cases h
+  rw [served_eq σ inst hShow]; exact hydrated_kinds σ inst hShow hStamp
+
+/-- the keyed elements of a document, pre-order -/
+def keyedElems (l : List Ch) : List (Str × Kind) := (elemKinds l).filter (fun e => e.2 != .keyless)
+/-- the keyless elements of a document, pre-order -/
+def keylessElems (l : List Ch) : List (Str × Kind) := (elemKinds l).filter (fun e => e.2 == .keyless)
+
+/-- the same, split into the two kinds of elements: the keyless ones are the same list before and after;
+the keyed ones have the same tags in the same order, all unadopted before and all adopted after -/
+theorem C09_all_adopted_once_split (σ : Store) (inst : InstList)
+    (hShow : ShowFreeList inst) (hStamp : StampFreeList inst)
+    (ch' : List Ch) (h : hydrateView σ inst = .ok ch') :
+    keylessElems ch' = keylessElems (mergeCh (ssrOfList σ inst).1) ∧
+    (keyedElems ch').map (·.1) = (keyedElems (mergeCh (ssrOfList σ inst).1)).map (·.1) ∧
+    (∀ e ∈ keyedElems ch', e.2 = .adopted) ∧
+    (∀ e ∈ keyedElems (mergeCh (ssrOfList σ inst).1), e.2 = .unadopted) := by
+  have ⟨h1, h2, _⟩ := C09_all_adopted_once σ inst hShow hStamp ch' h
+  have hfst : ∀ e : Str × Kind, (adoptKind e).1 = e.1 := by rintro ⟨t, k⟩; cases k <;> rfl
+  have hkl : ∀ e : Str × Kind, ((adoptKind e).2 == Kind.keyless) = (e.2 == Kind.keyless) := by
+    rintro ⟨t, k⟩; cases k <;> rfl
+  have hkd : ∀ e : Str × Kind, ((adoptKind e).2 != Kind.keyless) = (e.2 != Kind.keyless) := by
+    rintro ⟨t, k⟩; cases k <;> rfl
+  have hun : ∀ e ∈ keyedElems (mergeCh (ssrOfList σ inst).1), e.2 = .unadopted := by
+    intro e he
+    have hm := List.mem_filter.1 he
+    obtain ⟨t, k⟩ := e
+    have := h2 _ hm.1
+    cases k
+    · rfl
+    · exact absurd rfl this
+    · exact absurd hm.2 (by simp)
+  simp only [keylessElems, keyedElems] at hun ⊢
+  rw [h1, List.filter_map, List.filter_map]
+  simp only [Function.comp_def, hkl, hkd]
+  refine ⟨map_adoptKind_keyless (fun e he => ?_), ?_, ?_, hun⟩
+  · have := (List.mem_filter.1 he).2
+    obtain ⟨t, k⟩ := e
+    cases k <;> first | rfl | exact absurd this (by simp)
+  · simp [List.map_map, Function.comp_def, hfst]
+  · intro e he
+    obtain ⟨e', he', rfl⟩ := List.mem_map.1 he
+    obtain ⟨t, k⟩ := e'
+    have : k = .unadopted := hun _ he'
+    subst this; rfl
+
+/-- **The statement of the island-free development** as a corollary: for a view without `NoHydrate` every
+element of the server document is keyed; same tags in the same order, none adopted before, all after. -/
+theorem C09_all_adopted_once_islandFree (σ : Store) (inst : InstList)
+    (hShow : ShowFreeList inst) (hStamp : StampFreeList inst) (hIsl : IslandFreeList inst)
     (ch' : List Ch) (h : hydrateView σ inst = .ok ch') :
     (elems ch').map (·.1) = (elems (mergeCh (ssrOfList σ inst).1)).map (·.1) ∧
     (∀ e ∈ elems ch', e.2 = true) ∧
     (∀ e ∈ elems (mergeCh (ssrOfList σ inst).1), e.2 = false) := by
   rw [hydrateView_eq σ inst hShow hStamp] at h; cases h
-  rw [served_eq σ inst hShow]; exact hydrated_elems σ inst hShow hStamp
+  rw [served_eq σ inst hShow]; exact hydrated_elems σ inst hShow hStamp hIsl
 
 /-! ## 4 — all hydration markers are consumed -/
 
 /-- **C09 (markers consumed).** After hydration no slash comment and no `t` comment is left anywhere; the
 number of hydrated markers `#` is the number of marker appends, which is also the number of slash
 comments the server rendered (each consumed by exactly one append); likewise the `t` comments and the
-dynamic-text appends. -/
+dynamic-text appends.  Islands contribute no comment to the document and nothing to the pending list
+`(ssrOfList σ inst).2`, so the counts are those of the hydrated part alone. -/
 theorem C09_markers_consumed (σ : Store) (inst : InstList)
     (hShow : ShowFreeList inst) (hStamp : StampFreeList inst)
     (ch' : List Ch) (h : hydrateView σ inst = .ok ch') :
@@ -108,28 +186,47 @@ theorem C09_markers_consumed (σ : Store) (inst : InstList)
 /-- visible content of a client-rendered document -/
 def visibleD (ts : List DTree) : List Ch := mergeCh (visD ts)
 
-/-- **C09 (same as client render).** The visible content of the hydrated document is the visible content
-of `domList σ inst`, the document the client-rendering model (`Model/DomView`) produces for the same
-instance and store.  With C05 (`Props/C05.lean`: after every write history the client document equals,
-up to identities, a fresh render of the current state) the two models agree from here on. -/
+/-- **C09 (same as client render).** The visible content of the hydrated document — with the keyless
+stamp `[2]` erased, which `visibleCh` keeps — is the visible content of `domList σ inst`, the document
+the client-rendering model (`Model/DomView`) produces for the same instance and store; in particular an
+island shows, frozen, what the client renders for its children at `σ`.  With C05 (`Props/C05.lean`: after
+every write history the client document equals, up to identities, a fresh render of the current state)
+the two models agree from here on outside islands. -/
 theorem C09_matches_client_render (σ : Store) (inst : InstList)
     (hShow : ShowFreeList inst) (hStamp : StampFreeList inst)
     (ch' : List Ch) (h : hydrateView σ inst = .ok ch') :
-    mergeCh (visibleCh ch') = visibleD (domList σ inst) := by
+    eraseKeyless (mergeCh (visibleCh ch')) = visibleD (domList σ inst) := by
   rw [hydrateView_eq σ inst hShow hStamp] at h; cases h
   exact hydrated_visD σ inst hShow hStamp
 
 /-- the server document already shows it (SSR and client render agree on the visible content) -/
 theorem C09_server_matches_client_render (σ : Store) (inst : InstList)
     (hShow : ShowFreeList inst) (hStamp : StampFreeList inst) :
-    mergeCh (visibleCh (mergeCh (ssrOfList σ inst).1)) = visibleD (domList σ inst) := by
+    eraseKeyless (mergeCh (visibleCh (mergeCh (ssrOfList σ inst).1))) = visibleD (domList σ inst) := by
   rw [served_eq σ inst hShow, ← hydrated_visible σ inst hShow]
   exact hydrated_visD σ inst hShow hStamp
 
+/-- **The statements of the island-free development** as corollaries: without `NoHydrate` there is no
+keyless stamp and nothing to erase. -/
+theorem C09_matches_client_render_islandFree (σ : Store) (inst : InstList)
+    (hShow : ShowFreeList inst) (hStamp : StampFreeList inst) (hIsl : IslandFreeList inst)
+    (ch' : List Ch) (h : hydrateView σ inst = .ok ch') :
+    mergeCh (visibleCh ch') = visibleD (domList σ inst) := by
+  rw [hydrateView_eq σ inst hShow hStamp] at h; cases h
+  exact hydrated_visD_islandFree σ inst hShow hStamp hIsl
+
+theorem C09_server_matches_client_render_islandFree (σ : Store) (inst : InstList)
+    (hShow : ShowFreeList inst) (hStamp : StampFreeList inst) (hIsl : IslandFreeList inst) :
+    mergeCh (visibleCh (mergeCh (ssrOfList σ inst).1)) = visibleD (domList σ inst) := by
+  rw [served_eq σ inst hShow, ← hydrated_visible σ inst hShow]
+  exact hydrated_visD_islandFree σ inst hShow hStamp hIsl
+
 /-! ## The hypotheses hold for every mounted `Show`-free view description -/
 
-/-- `PlainVDList vds`: the description uses no `Show` and no attribute named `[1]`, in any alternative of
-any dynamic view.  Mounting it under any store from any counter gives an instance the theorems apply to. -/
+/-- `PlainVDList vds`: the description uses no attribute named `[1]` or `[2]` and no `Show` outside
+`NoHydrate`, in any alternative of any dynamic view; `NoHydrate` is allowed anywhere and may contain
+anything stamp-free.  Mounting it under any store from any counter gives an instance the theorems apply
+to. -/
 theorem C09_mount_hypotheses (σ : Store) (vds : VDList) (k : Nat) (h : PlainVDList vds) :
     ShowFreeList (mountList σ vds k).1 ∧ StampFreeList (mountList σ vds k).1 :=
   mountList_plain σ vds k h
@@ -141,9 +238,9 @@ theorem C09_mounted_view (σ : Store) (vds : VDList) (k : Nat) (h : PlainVDList 
     let p := (ssrOfList σ inst).2
     ∃ ch', hydrateView σ inst = .ok ch' ∧
       mergeCh (visibleCh ch') = mergeCh (visibleCh c) ∧
-      mergeCh (visibleCh ch') = visibleD (domList σ inst) ∧
-      (elems ch').map (·.1) = (elems c).map (·.1) ∧
-      (∀ e ∈ elems ch', e.2 = true) ∧ (∀ e ∈ elems c, e.2 = false) ∧
+      eraseKeyless (mergeCh (visibleCh ch')) = visibleD (domList σ inst) ∧
+      elemKinds ch' = (elemKinds c).map adoptKind ∧
+      (∀ e ∈ elemKinds c, e.2 ≠ .adopted) ∧ keylessEls ch' = keylessEls c ∧
       cmtCount [47] ch' = 0 ∧ cmtCount [116] ch' = 0 ∧ cmtCount [35] ch' = markerCount p := by
   intro inst c p
   have ⟨h1, h2⟩ := mountList_plain σ vds k h
@@ -152,6 +249,44 @@ theorem C09_mounted_view (σ : Store) (vds : VDList) (k : Nat) (h : PlainVDList 
   have hc := C09_markers_consumed σ inst h1 h2 _ hv
   exact ⟨_, hv, C09_visible_unchanged σ inst h1 h2 _ hv, C09_matches_client_render σ inst h1 h2 _ hv,
     he.1, he.2.1, he.2.2, hc.1, hc.2.1, hc.2.2.1⟩
+
+/-! ## 6 — after hydration an island is frozen (optional: `freezeInst`, `afterHydration` of the model) -/
+
+/-- At the initial store the instance `afterHydrationList σ inst` (islands replaced by their frozen
+content) shows what the mounted view shows, hence (by `C09_matches_client_render`) what the hydrated
+document shows.  No hypothesis: holds for every instance, also with `Show`. -/
+theorem C09_after_hydration_now (σ : Store) (inst : InstList) :
+    visibleD (domList σ (afterHydrationList σ inst)) = visibleD (domList σ inst) := by
+  rw [visibleD, visibleD, visD_afterHydrationList]
+
+/-- A frozen island shows under EVERY later store `σ'` what the client showed for its children at the
+initial store `σ` … -/
+theorem C09_island_frozen (σ σ' : Store) (cs : InstList) :
+    visibleD (domList σ' (freezeList σ cs)) = visibleD (domList σ cs) := by
+  rw [visibleD, visibleD, visD_freezeList]
+
+mutual
+theorem noDynOn_freeze (σ : Store) (s : Nat) : ∀ i : Inst, noDynOn s (freezeInst σ i) = true
+  | .el id tag attrs cs => by simp [freezeInst, noDynOn, noDynOnL_freeze σ s cs]
+  | .text id t => by simp [freezeInst, noDynOn]
+  | .dynText id sig => by simp [freezeInst, noDynOn]
+  | .dynView a b sig alts cur => by simp [freezeInst, noDynOn, noDynOnL_freeze σ s cur]
+  | .show a b sig cs => by
+    by_cases h : σ.get sig % 2 = 1
+    · simp [freezeInst, noDynOn, h, noDynOnL_freeze σ s cs]
+    · simp [freezeInst, noDynOn, noDynOnL, h]
+  | .frag cs => by simp [freezeInst, noDynOn, noDynOnL_freeze σ s cs]
+  | .island cs => by simp [freezeInst, noDynOn, noDynOnL_freeze σ s cs]
+theorem noDynOnL_freeze (σ : Store) (s : Nat) : ∀ is : InstList, noDynOnL s (freezeList σ is) = true
+  | .nil => by simp [freezeList, noDynOnL]
+  | .cons i is => by simp [freezeList, noDynOnL, noDynOn_freeze σ s i, noDynOnL_freeze σ s is]
+end
+
+/-- … and no signal write touches it: `updateList` is the identity on it and allocates no node
+(`C05_untouched_list`). -/
+theorem C09_island_inert (σ σ' : Store) (s : Nat) (cs : InstList) (k : Nat) :
+    updateList σ' s (freezeList σ cs) k = (freezeList σ cs, k) :=
+  updateList_untouched σ' s _ k (noDynOnL_freeze σ s cs)
 
 /-! ## Non-vacuity: a concrete view -/
 
@@ -167,13 +302,13 @@ def ofList : List VD → VDList
   | [] => .nil
   | v :: vs => .cons v (ofList vs)
 
-/-- `"7" "8" <t100 a2="5" a3=[sig0 odd] a4={sig1}> "9" {sig0} "10" "" dyn(sig1){ ["1"] |
+/-- `"7" "8" <t100 a7="5" a3=[sig0 odd] a4={sig1}> "9" {sig0} "10" "" dyn(sig1){ ["1"] |
       [<t2>{sig1} "3"</t2> dyn(sig0){ ["4"] | [{sig0} <t5></t5>] } "6"] } "11" "12" </t100> {sig1}`:
 adjacent static texts (also an empty one), dynamic text after static text, nested dynamic views, static /
 boolean / optional attributes -/
 def view : VDList :=
   ofList [.text [7], .text [8],
-    .el [100] [([2], .static [5]), ([3], .dynBool 0), ([4], .dyn 1)] (ofList
+    .el [100] [([7], .static [5]), ([3], .dynBool 0), ([4], .dyn 1)] (ofList
       [.text [9], .dynText 0, .text [10], .text [],
        .dynView 1 (.cons (ofList [.text [1]])
                   (.cons (ofList [.el [2] [] (ofList [.dynText 1, .text [3]]),
@@ -189,7 +324,7 @@ def inst0 : InstList := (mountList σ0 view 0).1
 /-- what the HTML parser hands to the client -/
 def serverDoc : List Ch :=
   [.text [7, 8],
-   .el [100] [([2], [5]), ([3], []), ([4], [49])]
+   .el [100] [([7], [5]), ([3], []), ([4], [49])]
      [.text [9], .cmt [116], .text [49], .cmt [], .text [10],
       .cmt [47],
         .el [2] [] [.cmt [116], .text [49], .cmt [], .text [3]],
@@ -202,7 +337,7 @@ def serverDoc : List Ch :=
 /-- the document after hydration -/
 def hydratedDoc : List Ch :=
   [.text [7, 8],
-   .el [100] [([1], []), ([2], [5]), ([3], []), ([4], [49])]
+   .el [100] [([1], []), ([7], [5]), ([3], []), ([4], [49])]
      [.text [9], .text [49], .cmt [], .text [10],
       .cmt [35],
         .el [2] [([1], [])] [.text [49], .cmt [], .text [3]],
@@ -215,7 +350,7 @@ def hydratedDoc : List Ch :=
 /-- the visible tree -/
 def visibleDoc : List Ch :=
   [.text [7, 8],
-   .el [100] [([2], [5]), ([3], []), ([4], [49])]
+   .el [100] [([7], [5]), ([3], []), ([4], [49])]
      [.text [9, 49, 10], .el [2] [] [.text [49, 3]], .text [49], .el [5] [] [], .text [6, 11, 12]],
    .text [49]]
 
@@ -237,6 +372,10 @@ example : mergeCh (visibleCh serverDoc) = visibleDoc ∧ mergeCh (visibleCh hydr
 -- the three elements, all unadopted before and adopted after, same order
 example : elems serverDoc = [([100], false), ([2], false), ([5], false)]
     ∧ elems hydratedDoc = [([100], true), ([2], true), ([5], true)] := by decide
+example : IslandFreeList inst0 := by decide
+example : elemKinds serverDoc = [([100], .unadopted), ([2], .unadopted), ([5], .unadopted)]
+    ∧ elemKinds hydratedDoc = [([100], .adopted), ([2], .adopted), ([5], .adopted)]
+    ∧ keylessEls serverDoc = [] := by decide
 -- four slash comments, four dynamic texts: all consumed
 example : cmtCount [47] serverDoc = 4 ∧ cmtCount [116] serverDoc = 4 ∧ cmtCount [35] serverDoc = 0
     ∧ cmtCount [47] hydratedDoc = 0 ∧ cmtCount [116] hydratedDoc = 0 ∧ cmtCount [35] hydratedDoc = 4
@@ -247,7 +386,7 @@ example : cmtCount [47] serverDoc = 4 ∧ cmtCount [116] serverDoc = 4 ∧ cmtCo
 /-- `serverDoc` with the closing slash comment of the outer dynamic view missing -/
 def missingMarker : List Ch :=
   [.text [7, 8],
-   .el [100] [([2], [5]), ([3], []), ([4], [49])]
+   .el [100] [([7], [5]), ([3], []), ([4], [49])]
      [.text [9], .cmt [116], .text [49], .cmt [], .text [10],
       .cmt [47],
         .el [2] [] [.cmt [116], .text [49], .cmt [], .text [3]],
@@ -289,6 +428,130 @@ theorem C09_stamp_hypothesis_needed : ¬ C09_hydrate_total_showFree_only := by
   have : hydrateKids 10 [.el [2] [([1], [])] []] [.el [2] [([1], [])] []] = .ok ch' := by
     simpa [ssrOfListS, ssrOfS, evalAttrs, mA, tx] using h10
   rw [hbad] at this; cases this
+
+/-- **The name `[2]` is reserved as well.** A keyed element that itself renders the attribute `([2], [])`
+first looks keyless to the model, is skipped, and hydration reports `.shape`. -/
+theorem C09_keyless_name_reserved :
+    ¬ ∀ (σ : Store) (inst : InstList), ShowFreeList inst → (∃ ch', hydrateView σ inst = .ok ch') := by
+  intro h
+  have ⟨ch', h'⟩ := h [] (.cons (.el 0 [3] [([2], .static [])] .nil) .nil) (by decide)
+  have hbad : hydrateKids 10 [.el [3] [([2], [])] []] [.el [3] [([2], [])] []] = .error .shape := by decide
+  rw [hydrateView_unfold, ssrOfList_eqS, mergeCh_eq] at h'
+  have h10 := (C09_fuel_irrelevant _ 10 _ _ _ h'
+    (by simp [ssrOfListS, ssrOfS, evalAttrs, mA, tx, pendSize, chSize])).1
+  have : hydrateKids 10 [.el [3] [([2], [])] []] [.el [3] [([2], [])] []] = .ok ch' := by
+    simpa [ssrOfListS, ssrOfS, evalAttrs, mA, tx] using h10
+  rw [hbad] at this; cases this
+
+/-! ### An island (`NoHydrate`) in front of hydrated dynamic nodes of the same parent
+
+`<t100> "8" NoHydrate{ <t2 a3={sig0}>"9"{sig1}</t2> {sig0} dyn(sig1){ ["1"] | [<t4></t4> {sig1}] }
+Show(sig0){ "7" } } {sig1} dyn(sig0){ ["5"] | [<t6>{sig0}</t6>] } </t100>`: the island contains an element, a
+dynamic text, a dynamic view and a `Show`; it is followed, in the same parent, by a hydrated dynamic text
+and a hydrated dynamic view.  The client must find ITS `t` comment and ITS slash comments — the island has
+none. -/
+
+def viewI : VDList :=
+  ofList [.el [100] [] (ofList
+    [.text [8],
+     .noHydrate (ofList
+       [.el [2] [([3], .dyn 0)] (ofList [.text [9], .dynText 1]),
+        .dynText 0,
+        .dynView 1 (.cons (ofList [.text [1]]) (.cons (ofList [.el [4] [] .nil, .dynText 1]) .nil)),
+        .show 0 (ofList [.text [7]])]),
+     .dynText 1,
+     .dynView 0 (.cons (ofList [.text [5]]) (.cons (ofList [.el [6] [] (ofList [.dynText 0])]) .nil))])]
+
+def σI : Store := [1, 1]
+def instI : InstList := (mountList σI viewI 0).1
+
+/-- what the HTML parser hands to the client: the island is `<t2 [2] a3="1">"91"</t2> "1" <t4 [2]></t4> "17"`
+(keyless elements, plain text, no comments; its last text is NOT merged with the hydrated dynamic text,
+which starts with its `t` comment) -/
+def serverDocI : List Ch :=
+  [.el [100] []
+    [.text [8],
+     .el [2] [([2], []), ([3], [49])] [.text [9, 49]],
+     .text [49],
+     .el [4] [([2], [])] [],
+     .text [49, 7],
+     .cmt [116], .text [49], .cmt [],
+     .cmt [47],
+       .el [6] [] [.cmt [116], .text [49], .cmt []],
+     .cmt [47]]]
+
+/-- the client appends nothing for the island -/
+def pendingI : List Pend :=
+  [.el [100] [] [.textStatic, .textDynamic [49], .marker, .el [6] [] [.textDynamic [49]], .marker]]
+
+/-- after hydration: the island is untouched, everything else adopted -/
+def hydratedDocI : List Ch :=
+  [.el [100] [([1], [])]
+    [.text [8],
+     .el [2] [([2], []), ([3], [49])] [.text [9, 49]],
+     .text [49],
+     .el [4] [([2], [])] [],
+     .text [49, 7],
+     .text [49], .cmt [],
+     .cmt [35],
+       .el [6] [([1], [])] [.text [49], .cmt []],
+     .cmt [35]]]
+
+/-- the visible tree (`visibleCh` keeps the keyless stamp) -/
+def visibleDocI : List Ch :=
+  [.el [100] []
+    [.text [8], .el [2] [([2], []), ([3], [49])] [.text [9, 49]], .text [49], .el [4] [([2], [])] [],
+     .text [49, 7, 49], .el [6] [] [.text [49]]]]
+
+/-- what the client renders for the same view and store -/
+def clientDocI : List Ch :=
+  [.el [100] []
+    [.text [8], .el [2] [([3], [49])] [.text [9, 49]], .text [49], .el [4] [] [],
+     .text [49, 7, 49], .el [6] [] [.text [49]]]]
+
+-- the hypotheses hold (`Show` inside the island is fine); the view is not island-free
+example : PlainVDList viewI := by
+  simp [viewI, ofList, PlainVDList, PlainVD, PlainVDAlts, StampFreeVDList, StampFreeVD, StampFreeVDAlts]
+example : ShowFreeList instI ∧ StampFreeList instI ∧ ¬ IslandFreeList instI := by decide
+example : mergeCh (ssrOfList σI instI).1 = serverDocI ∧ (ssrOfList σI instI).2 = pendingI := by
+  rw [ssrOfList_eqS, mergeCh_eq]; decide
+-- hydration succeeds with exactly this result
+example : hydrateView σI instI = .ok hydratedDocI := by
+  rw [hydrateView_unfold]
+  refine (C09_fuel_irrelevant 100 _ _ _ _ ?_ (by omega)).1
+  rw [ssrOfList_eqS, mergeCh_eq]; decide
+-- visible tree before = after; with the keyless stamps erased it is the client render
+example : mergeCh (visibleCh serverDocI) = visibleDocI ∧ mergeCh (visibleCh hydratedDocI) = visibleDocI
+    ∧ eraseKeyless visibleDocI = clientDocI ∧ visibleD (domList σI instI) = clientDocI := by
+  rw [visibleD, mergeCh_eq, mergeCh_eq, mergeCh_eq, visibleCh_eqS, visibleCh_eqS, visD_eqS]; decide
+-- four elements: the two keyed ones are adopted, the two keyless ones are the same subtrees as before
+example : elemKinds serverDocI = [([100], .unadopted), ([2], .keyless), ([4], .keyless), ([6], .unadopted)]
+    ∧ elemKinds hydratedDocI = [([100], .adopted), ([2], .keyless), ([4], .keyless), ([6], .adopted)]
+    ∧ keylessEls hydratedDocI = keylessEls serverDocI
+    ∧ keylessEls serverDocI = [.el [2] [([2], []), ([3], [49])] [.text [9, 49]], .el [4] [([2], [])] []] := by
+  decide
+-- the two slash comments and the two `t` comments of the HYDRATED part: all consumed; the pending list
+-- has two markers and two dynamic texts (nothing for the three dynamic nodes inside the island)
+example : cmtCount [47] serverDocI = 2 ∧ cmtCount [116] serverDocI = 2 ∧ cmtCount [35] serverDocI = 0
+    ∧ cmtCount [47] hydratedDocI = 0 ∧ cmtCount [116] hydratedDocI = 0 ∧ cmtCount [35] hydratedDocI = 2
+    ∧ markerCount (ssrOfList σI instI).2 = 2 ∧ dynTextCount (ssrOfList σI instI).2 = 2 := by decide
+
+/-- the same view with `frag` for `NoHydrate` and without the `Show`: what a server would render if it
+rendered the island's children hydratable (keys, markers) -/
+def viewIfrag : VDList :=
+  ofList [.el [100] [] (ofList
+    [.text [8],
+     .frag (ofList
+       [.el [2] [([3], .dyn 0)] (ofList [.text [9], .dynText 1]),
+        .dynText 0,
+        .dynView 1 (.cons (ofList [.text [1]]) (.cons (ofList [.el [4] [] .nil, .dynText 1]) .nil))]),
+     .dynText 1,
+     .dynView 0 (.cons (ofList [.text [5]]) (.cons (ofList [.el [6] [] (ofList [.dynText 0])]) .nil))])]
+
+-- the island matters: on THAT server document the client (which appends nothing for the island) adopts the
+-- island's `t` comment and slash comment for its own dynamic text / view and then fails on the element
+example : hydrateKids 200 (mA [] (ssrOfListS σI (mountList σI viewIfrag 0).1).1) (ssrOfList σI instI).2
+    = .error .shape := by decide
 
 end Example
 
